@@ -307,7 +307,7 @@ func (watchStream) Execute(c Case) {
 		// the history has ended: poll queries until they agree with a fresh cache (or the deadline passes)
 		fresh, _ := cdi.NewCache(cdi.WithSpecDirs(d), cdi.WithAutoRefresh(false))
 		want := cacheImage(fresh)
-		deadline := time.Now().Add(4 * time.Second)
+		deadline := time.Now().Add(8 * time.Second)
 		converged := false
 		var got map[string]any
 		polls := 0
